@@ -8,6 +8,7 @@ import PLS.Model.Index
 import PLS.Model.Cycles
 import PLS.Model.Scan
 import PLS.Model.Lsp
+import PLS.Model.Completion
 import PLS.Generated
 import PLS.Spec.Pytest
 import Driver.Sexp
@@ -239,6 +240,15 @@ def strContains (s pat : String) : Bool := Index.containsSub pat.toList s.toList
 
 def diagStr (d : Index.Diag) : String := s!"{d.code}|{d.loc.line0}:{d.loc.startChar}-{d.loc.endChar}|{hexOf d.message}"
 
+def ctxStr : Option Ctx → String
+  | none => "none"
+  | some .usefixtures => "usefixtures"
+  | some .parametrize => "parametrize"
+  | some (.signature fn l fx ps sc) =>
+    s!"sig:{fn}:{l}:{if fx then 1 else 0}:{if ps.isEmpty then "-" else ",".intercalate ps}:{match sc with | some s => s.asStr | none => "-"}"
+  | some (.body fn l fx ps sc) =>
+    s!"body:{fn}:{l}:{if fx then 1 else 0}:{if ps.isEmpty then "-" else ",".intercalate ps}:{match sc with | some s => s.asStr | none => "-"}"
+
 /-- handler-level queries (answered by the real server over stdio on the implementation side) -/
 def runH (c : CaseSt) (t : List String) : Option (String × CaseSt) :=
   let st := c.st
@@ -284,6 +294,22 @@ def runH (c : CaseSt) (t : List String) : Option (String × CaseSt) :=
     upd (match r with
       | none => "none"
       | some l => listed (l.map (fun x => s!"{x.1}:{x.2.1}:{hexOf x.2.2}")), st)
+  | "h_completion" :: p :: l :: _ :: rest =>
+    let (r, st) := st.hCompletion asciiLowerStr (pathOf p) l.toNat! (rest == ["comma"])
+    upd (match r with
+      | none => "none"
+      | some items => listed (items.map (fun i =>
+          s!"{i.label}|{i.sortText}|{hexOf i.detail}|{hexOf i.insertText}|{if i.kindText then 1 else 6}|{match i.edit with | some e => s!"{e.1}:{e.2.1}:{hexOf e.2.2}" | none => "-"}")), st)
+  | ["h_action", p, l, ch] =>
+    some (match st.hCodeAction (pathOf p) l.toNat! ch.toNat! with
+      | none => "none"
+      | some a => s!"{hexOf a.1}|{a.2.1}:{a.2.2.1}|{hexOf a.2.2.2}", c)
+  | ["ctx", p, l, _] => some (ctxStr (st.completionContext asciiLowerStr (pathOf p) l.toNat!), c)
+  | ["insert", p, l] =>
+    some (match st.paramInsertion (pathOf p) l.toNat! with
+      | none => "none"
+      | some i => s!"{i.1}:{i.2.1}:{if i.2.2 then 1 else 0}", c)
+  | ["containing", p, l] => some ((st.containingFunction (pathOf p) l.toNat!).getD "none", c)
   | ["h_wsym", q] =>
     let query := asciiLowerStr ((unhexStr? q).getD "")
     let r := st.hWorkspaceSymbols query asciiLowerStr strContains
@@ -415,6 +441,15 @@ def runSpec (c : CaseSt) (t : List String) : Option String :=
         (if uncached then ["uncached-conftest"] else []) ++ (if impAny then ["imported-name"] else []) ++
         (if stray then ["stray-def"] else [])
       if acc.isEmpty && fl.isEmpty then none else some s!"{n}={sorted (acc.map defShort)}{flagStr fl}")))
+  | ["ctx", p, l, _] =>
+    -- which path produced the context: the AST path, or the text fallback on a VALID document
+    (match st.content (pathOf p) with
+     | some { parsed := some fr, text := t } =>
+       let target := l.toNat! + 1
+       let ast := (decoratorCtx target fr.body).orElse (fun _ => functionCtx (linesOf t.toList) target fr.body)
+       if ast.isNone && (ctxFromText asciiLowerStr t.toList target).isSome then some "- FLAGS=text-fallback-on-valid"
+       else some "-"
+     | _ => some "-")
   | ["imported", _] => some ("-" ++ flagStr (if hasImportCycle st then ["import-cycle"] else []))
   | ["refs", _, _, n] =>
     let us := st.allUsages.filter (·.name == n)
